@@ -16,6 +16,7 @@ from ._http import connect, proxy_info
 from ._logging import debug, error, trace, isEnabledForError, isEnabledForTrace
 from ._socket import getdefaulttimeout, recv, send, sock_opt
 from ._ssl_compat import ssl
+from ._url import parse_url
 from ._utils import NoLock
 from ._dispatcher import DispatcherBase, WrappedDispatcher
 
@@ -272,6 +273,15 @@ class WebSocket:
                     if not url:
                         raise WebSocketBadStatusException(
                             f"Handshake status {self.handshake_response.status}: redirect without Location header",
+                            self.handshake_response.status,
+                            None,
+                            self.handshake_response.headers,
+                        )
+                    try:
+                        parse_url(url)
+                    except ValueError as e:
+                        raise WebSocketBadStatusException(
+                            f"Handshake status {self.handshake_response.status}: unusable redirect Location {url!r}: {e}",
                             self.handshake_response.status,
                             None,
                             self.handshake_response.headers,
